@@ -73,6 +73,13 @@ func (e *stepLongEngine) generate(r *rng, n int, tier string, emit func(string))
 			emit(fmt.Sprintf("prog=%d n=30000 s=%s", p, script))
 		}
 	}
+	// … and one close to what the host stack carries (measured: > 100 000 iterations of these loops fit in Go's default
+	// 1 GB goroutine stack under a stepper): "every program that terminates within the host stack"
+	emit("prog=0 n=90000 s=i")
+	if tier == "thorough" {
+		emit("prog=1 n=90000 s=n")
+		emit("prog=3 n=90000 s=i")
+	}
 	for p := range stepFuturePrograms {
 		for _, script := range []string{"n", "i", "xn"} {
 			emit(fmt.Sprintf("prog=%d n=1 s=%s", 100+p, script))
